@@ -172,6 +172,8 @@ class Kinds:
                     if kk is None:
                         if f[2].startswith('math.'):
                             return 'plain'
+                        if f[2].startswith('itertools.'):
+                            return 'iterator'       # every itertools function hands back a lazy iterator
                         self.unknown.append('library call %s' % f[2])
                         return 'unknown'
                     if kk == 'same':
